@@ -11,7 +11,8 @@ ID = "C08"
 THEOREM = ("Ufo2ft.C08.C08_pure / C08_history / C08_sorted_unique / sortOn_perm_eq / setTuple_perm / classDefsOut_perm / "
            "lookupGroupsOut_perm / registerLookups_perm / registerLookups_dflt_swap / sortPairs_perm / classNamingOrder_perm / "
            "groupMarkClasses_perm / groupMarkClasses_sets / marksSorted_perm / cursivePairs_perm / ligCarets_perm / "
-           "sortedGlyphClass_names / anchorsToAdd_perm / partitionByScript_sets / mergedSets_perm / splitKerning_perm")
+           "sortedGlyphClass_names / anchorsToAdd_perm / partitionByScript_sets / mergedSets_perm / splitKerning_perm / "
+           "C08_vfinfo / infoInit_frame / infoInit_temp / infoInit_lib_agnostic / C08_history_vfinfo / infoInitAliased_touches")
 N = {"quick": 40, "thorough": 500}
 RULE = ("(1) digests: random feature-rich fonts (2-4 scripts incl. RTL/Indic, kerning groups + glyph/class pairs incl. cross-script, "
         "mark/mkmk/ligature/cursive/caret anchors, composites with propagateAnchors, categories from lib/GDEF/none, languagesystems, "
@@ -22,14 +23,23 @@ RULE = ("(1) digests: random feature-rich fonts (2-4 scripts incl. RTL/Indic, ke
         "compileTTF, compileOTF, compileVariableTTF, compileVariableCFF2, compileInterpolatable{TTFs,OTFs}FromDS; sha256 of every "
         "saved font must equal the first-call digest of the reference interpreter; a mismatch is bisected to the tables that differ. "
         "Every 6th font: many sparse kerning classes + GPOS compaction through ONE shared ftConfig dict; every 6th: propagated anchor keys that collide; contextual (*) anchors with identifiers in a third; some histories start with a compile of ANOTHER font. "
+        "Two designspaces in three carry 1-2 <variable-font> elements whose lib['public.fontInfo'] overrides 1-6 fontinfo attributes (names, "
+        "vertical metrics, weight/width, version, panose, flags ...; mostly values the masters do not have): the variable builds then run "
+        "PostProcessor.apply_fontinfo -> InfoCompiler on the caller's default master, all <variable-font>s are compiled "
+        "(compileVariableTTFs/CFF2s), and every history has static / interpolatable / variable compiles of the SAME objects after it. "
         "(2) emitters: the anchored functions (KernFeatureWriter._write/_registerLookups, splitKerning, _groupMarkClasses+colorGraph, "
         "_marksAsAST, _getCursiveAnchorPairs, _getLigatureCarets, _sortedGlyphClass, _propagate_glyph_anchors) are called on two "
-        "insertion orders of the same dict/set content and compared with the Lean model and with each other. "
+        "insertion orders of the same dict/set content and compared with the Lean model and with each other; _copyGlyph on a defcon and a "
+        "ufoLib2 glyph; InfoCompiler(otf, master, overrides).compile() on a really compiled font of a ufoLib2 and of a defcon master "
+        "(random master fontinfo x 0-8 overrides hitting present / absent / equal-valued attributes): every fontinfo attribute of the master "
+        "before == after, and the temporary Info == the Lean model's (override where given, master's value elsewhere). "
         "non-trivial = digests case with >= 2 scripts, kerning pairs and marks; emitter case whose two orders really differ.")
 ASSUMED = ["fontTools/feaLib/varLib/cu2qu/cffsubr are deterministic functions of their inputs (measured by the digest runs, not modelled)",
            "PYTHONHASHSEED is sampled at 5-7 values per font, not all 2^32: the Perm-invariance theorems cover the modelled emitters for every order",
            "a lookup object is identified with its (unique) name; a dict has unique keys (hypothesis `Nodup` of the theorems)",
-           "MATH and colour-layer sources are not generated: compiling them modifies the sources (C07 findings), C08 inherits exactly those"]
+           "MATH and colour-layer sources are not generated: compiling them modifies the sources (C07 findings), C08 inherits exactly those",
+           "a fontinfo object is its UFO-3 attributes (guidelines excluded) with values as canonical text; copy.copy(info) is a new object with "
+           "the same attribute values and setattr replaces a value (ufoLib2 attrs class; list values are replaced, never mutated in place)"]
 
 SCRIPTS = ["Zyyy", "Latn", "Grek", "Cyrl", "Hebr", "Arab", "Deva", "Khmr", "Thai", "Zinh"]
 log = logging.getLogger("c08")
@@ -153,6 +163,37 @@ OPTS = [{}, {}, {}, {"useProductionNames": False}, {"flattenComponents": True}, 
         {"ftConfig": {"fontTools.otlLib.optimize.gpos:COMPRESSION_LEVEL": 5}}, {"ftConfig": {"fontTools.otlLib.optimize.gpos:COMPRESSION_LEVEL": 9}}]
 
 
+# fontinfo overrides a designspace <variable-font> element may carry in lib["public.fontInfo"] (PostProcessor.apply_fontinfo ->
+# InfoCompiler): values that DIFFER from what the masters say (a leak into a master is visible in every later compile of it)
+# next to a few that repeat the master's value
+VF_INFO_POOL = {
+    "familyName": ["C08 Test VF", "C08 Test"], "styleName": ["Roman", "Regular"], "postscriptFontName": ["C08TestVF-Roman"],
+    "styleMapFamilyName": ["C08 Test VF"], "styleMapStyleName": ["bold", "italic"],
+    "openTypeOS2TypoAscender": [950, 800], "openTypeOS2TypoDescender": [-250], "openTypeOS2TypoLineGap": [90],
+    "openTypeHheaAscender": [950], "openTypeHheaDescender": [-250], "openTypeHheaLineGap": [0, 90],
+    "openTypeOS2WinAscent": [1010], "openTypeOS2WinDescent": [310],
+    "openTypeOS2WeightClass": [350], "openTypeOS2WidthClass": [3], "openTypeOS2VendorID": ["C08S"], "openTypeOS2Type": [[2]],
+    "openTypeOS2Panose": [[2, 0, 5, 3, 0, 0, 0, 0, 0, 0]], "openTypeOS2Selection": [[7]],
+    "versionMajor": [2], "versionMinor": [5], "openTypeNameVersion": ["Version 2.005;vf"], "copyright": ["(c) C08 VF"],
+    "openTypeNameDesigner": ["VF designer"], "openTypeNameUniqueID": ["C08TestVF;unique"],
+    "italicAngle": [-9.5], "postscriptUnderlinePosition": [-120], "postscriptUnderlineThickness": [60],
+    "xHeight": [510], "capHeight": [710], "ascender": [810], "descender": [-190],
+    "openTypeHeadLowestRecPPEM": [8], "openTypeHeadFlags": [[0, 1]],
+}
+
+
+def _gen_vfinfo(rng):
+    """1 (mostly) or 2 <variable-font> elements, each with 1-6 overrides (the second may have none)"""
+    out = []
+    for j in range(rng.choice([1, 1, 1, 2])):
+        keys = rng.sample(sorted(VF_INFO_POOL), rng.choice([1, 2, 3, 6]))
+        info = {k: rng.choice(VF_INFO_POOL[k]) for k in keys}
+        if j == 1 and rng.random() < 0.3:
+            info = None
+        out.append(info)
+    return out
+
+
 def _gen_digest_case(rng, i, thorough):
     # every 6th case: a designspace with many sparse kerning classes, compiled with GPOS compaction requested through ONE
     # shared ftConfig dict (option objects are part of the call history)
@@ -193,8 +234,12 @@ def _gen_digest_case(rng, i, thorough):
         if memonly:
             p["source"], p["reopen"] = "mem", None
     opts = OPTS[-1] if compact else rng.choice(OPTS)
+    # two designspaces in three: <variable-font> elements whose lib["public.fontInfo"] overrides fontinfo of the variable font
+    # only (the overrides are data of the DESIGNSPACE; the masters, and every later compile of them, must not see them)
+    vfinfo = _gen_vfinfo(rng) if (not static and i % 3 != 2) else None
+    case_extra = {"vfinfo": vfinfo} if vfinfo else {}
     ref = {"hashseed": 0, "lib": "ufoLib2", "source": "mem", "reopen": None, "shuffle": None, "steps": [[k, "fresh"] for k in kinds]}
-    return {"kind": "digests", "fds": fds, "opts": opts, "ref": ref, "procs": procs}
+    return dict({"kind": "digests", "fds": fds, "opts": opts, "ref": ref, "procs": procs}, **case_extra)
 
 
 F1_SHAPE = {"shape": "propagated-anchor-looked-up-in-source-font", "differs": "inplace=True only",
@@ -245,7 +290,7 @@ def gen(rng, n, mode):
         items = []
         for _ in range(25):
             k = rng.choice(["kernwrite", "register", "register", "split", "split", "split", "color", "sortnames", "curs", "carets",
-                            "glyphclass", "toadd", "toadd", "copyglyph"])
+                            "glyphclass", "toadd", "toadd", "copyglyph", "vfinfo"])
             s = rng.randrange(10 ** 9)
             if k in ("kernwrite", "register"):
                 it = {"op": k, "lookups": _gen_lookups(rng, adversarial), "seed": s, "kern": rng.random() < 0.7,
@@ -271,6 +316,22 @@ def gen(rng, n, mode):
             elif k == "glyphclass":
                 order = rng.sample(["a", "B", "c", "Zed", "f_i", "acutecomb", ".notdef", "a.sc"], rng.randrange(1, 8))
                 it = {"op": k, "order": order, "names": rng.sample(order + ["ghost"], rng.randrange(0, len(order) + 1)), "seed": s}
+            elif k == "vfinfo":
+                # a master's fontinfo (the digest fonts' info + some of the pool's attributes at OTHER values) and the overrides of
+                # a <variable-font>: attributes the master has, attributes it lacks, values equal to the master's
+                src = {"familyName": "C08 Test", "styleName": rng.choice(["Regular", "Bold"]), "ascender": 800, "descender": -200,
+                       "xHeight": 500, "capHeight": 700}
+                alt = {"openTypeOS2TypoAscender": 780, "openTypeHheaAscender": 1000, "openTypeOS2WeightClass": 400, "versionMajor": 1,
+                       "versionMinor": 0, "italicAngle": 0, "openTypeOS2VendorID": "NONE", "openTypeOS2Type": [], "copyright": "(c) master",
+                       "openTypeOS2Panose": [2, 11, 5, 2, 4, 5, 4, 2, 2, 4], "postscriptFontName": "C08Test-Regular",
+                       "openTypeNameDesigner": "master designer", "openTypeOS2Selection": [8], "postscriptUnderlinePosition": -75}
+                for kk in rng.sample(sorted(alt), rng.randrange(0, 7)):
+                    src[kk] = alt[kk]
+                keys = rng.sample(sorted(VF_INFO_POOL), rng.choice([0, 1, 2, 4, 8]))
+                ov = {kk: rng.choice(VF_INFO_POOL[kk]) for kk in keys}
+                for kk in rng.sample(sorted(src), rng.choice([0, 0, 1])):
+                    ov[kk] = src[kk]
+                it = {"op": k, "seed": s, "info": src, "ov": [[kk, ov[kk]] for kk in _shuf(rng, ov)]}
             elif k == "copyglyph":
                 box = [[0, 0, "line"], [100.5, 0, "line"], [100, 90, None], [50, 120, None], [0, 100, "curve"]]
                 an = []
@@ -543,12 +604,64 @@ def _run_copyglyph(it, rng):
             "tags": ["emit:copyglyph", "emit:copyglyph:identifier=%s" % any(a[3] for a in it["anchors"])], "nontrivial": bool(it["anchors"])}
 
 
-RUNNERS = {"copyglyph": _run_copyglyph, "kernwrite": _run_kernwrite, "register": _run_register, "split": _run_split, "color": _run_color, "sortnames": _run_sortnames,
+def _canon_info_value(v):
+    if isinstance(v, bool) or v is None or isinstance(v, str):
+        return v
+    if isinstance(v, (int, float)):
+        return rat(v)
+    if isinstance(v, (list, tuple)):
+        return [_canon_info_value(x) for x in v]
+    if isinstance(v, dict):
+        return {str(k): _canon_info_value(x) for k, x in sorted(v.items())}
+    return repr(v)
+
+
+def _info_dict(info):
+    """every fontinfo attribute of UFO 3 that is set, sorted by name, values as canonical JSON text (numbers exact)"""
+    from fontTools.ufoLib import fontInfoAttributesVersion3 as ATTRS
+    out = []
+    for k in sorted(ATTRS):
+        v = getattr(info, k, None)
+        if v is None or k == "guidelines":
+            continue
+        out.append([k, json.dumps(_canon_info_value(v), sort_keys=True)])
+    return out
+
+
+def _run_vfinfo(it, rng):
+    """InfoCompiler(otf, master, overrides) + compile() on a really compiled static font of the master, as
+    PostProcessor.apply_fontinfo does at the end of a variable build: the master's Info before / after, and the Info of the
+    temporary UFO the name/OS2/hhea/head/post values are taken from"""
+    import ufo2ft
+    from ufo2ft.infoCompiler import InfoCompiler
+    ov = {k: v for k, v in it["ov"]}
+    before, obs = {}, {}
+    for lib in ("ufoLib2", "defcon"):
+        font = build({"upm": 1000, "glyphs": [{"name": "a", "width": 500, "unicodes": [97], "contours": [], "components": [], "anchors": []}],
+                      "info": it["info"]}, lib)
+        otf = ufo2ft.compileTTF(font)
+        before[lib] = _info_dict(font.info)
+        try:
+            c = InfoCompiler(otf, font, json.loads(json.dumps(ov)))
+            temp = _info_dict(c.ufo.info)
+            c.compile()
+        except Exception as e:    # pragma: no cover
+            temp = [["ERR", type(e).__name__ + ":" + str(e)[:80]]]
+        obs[lib] = {"after": _info_dict(font.info), "temp": temp}
+    enc = [[k, json.dumps(_canon_info_value(v), sort_keys=True)] for k, v in it["ov"]]
+    src = dict(before["ufoLib2"])
+    changes = sum(1 for k, v in enc if src.get(k) != v)
+    return {"op": "vfinfo", "in": {"ov": enc, "before": before}, "obs": obs,
+            "tags": ["emit:vfinfo", "emit:vfinfo:overrides=%d" % min(len(enc), 3), "emit:vfinfo:effective=%d" % min(changes, 3)],
+            "nontrivial": changes > 0}
+
+
+RUNNERS = {"vfinfo": _run_vfinfo, "copyglyph": _run_copyglyph, "kernwrite": _run_kernwrite, "register": _run_register, "split": _run_split, "color": _run_color, "sortnames": _run_sortnames,
            "curs": _run_curs, "carets": _run_carets, "glyphclass": _run_glyphclass, "toadd": _run_toadd}
 
 
 def _run_digests(case):
-    base = {"fds": case["fds"], "opts": case["opts"]}
+    base = {"fds": case["fds"], "opts": case["opts"], "vfinfo": case.get("vfinfo")}
     refobs = L.run_worker(dict(base, **{k: case["ref"][k] for k in ("lib", "source", "reopen", "shuffle", "steps")}), case["ref"]["hashseed"])
     ref, reftabs = {}, {}
     for kind, mode, sha, tabs in refobs:
@@ -575,7 +688,7 @@ def _run_digests(case):
                 prev.append(kind)
     st = case["fds"][0].get("_stats", {})
     tags.update(["scripts=%d" % len(st.get("scripts", [])), "cats:" + str(st.get("cats")), "lsys:" + str(st.get("lsys")),
-                 "masters=%d" % len(case["fds"]), "contextual-anchors=%d" % min(st.get("ctx", 0), 2),
+                 "masters=%d" % len(case["fds"]), "vf-fontinfo=%d" % len(case.get("vfinfo") or []), "contextual-anchors=%d" % min(st.get("ctx", 0), 2),
                  "colliding-propagated-anchors:" + str(bool(st.get("collide"))), "dense-kerning:" + str(bool(st.get("dense")))] + ["opt:" + k for k in case["opts"]] + ["filter:" + f for f in st.get("filters", [])])
     if any(s.startswith("ERR") for s in ref.values()):
         tags.add("ref-error")
@@ -609,6 +722,8 @@ def agree(req, rep):
         return m["a"] == o["a"]
     if req["op"] == "copyglyph":
         return m["ufoLib2"] == o["ufoLib2"] and m["defcon"] == o["defcon"]
+    if req["op"] == "vfinfo":
+        return all(m[l]["after"] == o[l]["after"] and m[l]["temp"] == o[l]["temp"] for l in ("ufoLib2", "defcon"))
     return m["a"] == o["a"] and m["b"] == o["b"]
 
 
@@ -626,6 +741,15 @@ def shrink(case):
         if len(p["steps"]) > 1:
             for k in range(len(p["steps"])):
                 yield dict(case, procs=[dict(p, steps=p["steps"][:k] + p["steps"][k + 1:])])
+    vf = case.get("vfinfo")
+    if vf:
+        if len(vf) > 1:
+            for one in vf:
+                if one:
+                    yield dict(case, vfinfo=[one])
+        elif len(vf[0]) > 1:
+            for k in vf[0]:
+                yield dict(case, vfinfo=[{k: vf[0][k]}])
     fd = case["fds"][0]
     if len(case["fds"]) == 1:
         if fd["kerning"]:
@@ -678,8 +802,15 @@ LEVEL_TEXT = ("Proved for all inputs (Lean): every modelled place where the kern
               "serialise a Python set or an order-carrying dict emits the same list for every iteration order (Perm-invariance; core: a key-ordered "
               "rearrangement is unique when keys are distinct), incl. script registration, class naming order, mark-class graph colouring; "
               "splitKerning's buckets, sorted by key, do not depend on the order of the kerning dict; per-call construction of the "
-              "compiler object makes the n-th public call equal to a first call whenever sources are unchanged (C07). Decisive runtime part: sha256 of "
+              "compiler object makes the n-th public call equal to a first call whenever sources are unchanged (C07); for the variable-font "
+              "fontinfo overrides that hypothesis is proved, not assumed: InfoCompiler's constructor (heap model with object identity, defcon and "
+              "ufoLib2 branch) writes to no Info object that existed before the call, and the temporary Info it builds is the same for both "
+              "libraries (override where given, master's value elsewhere), so a history containing such variable builds returns first-call "
+              "results (C08_history_vfinfo). Decisive runtime part: sha256 of "
               "fonts from fresh interpreters over hash seeds x histories x UFO library x memory/disk x inplace x container order.")
 LEVEL_NOTE = ("Trusted: Lean kernel + standard axioms; the correspondence harness; determinism of fontTools & co. is measured, not modelled; hash seeds "
               "are sampled. The Lean models cover the emitters listed in Model/C08.lean, not whole writers (those are C05/C06/C18's models). "
-              "MATH / colour layers excluded here (C07 findings).")
+              "MATH / colour layers excluded here (C07 findings). The InfoCompiler model covers the constructor's Info handling only; that the "
+              "name/OS2/hhea/head/post values of the variable font are a function of that temporary Info, and that nothing ELSE in a variable "
+              "build writes to the masters, is observed by the digest histories (static / variable compiles after a variable build with "
+              "overrides), not proved.")
